@@ -1,5 +1,6 @@
 import DynetxProofs.Lemmas.HistoryMore
 import DynetxProofs.Lemmas.CountsHistory
+import DynetxProofs.Lemmas.AccumHistory
 /-
   THE PROPERTY THEOREMS.  Only statements about the model that correspond to the clauses of
   /verif/properties.jsonl live here; every helper lemma is in DynetxProofs/Lemmas.
@@ -204,6 +205,58 @@ theorem C07_bulk (g : Graph) (op : Op) (err : Err) (h : (g.step op).2 = some err
     obtain ⟨k, hk, h1, _⟩ := addFromGo_failure_prefix g op.pairs (some t0) op.e g' err hres
     exact ⟨k, hk, h1⟩
 
+/-! ## C08 — accumulative mode -/
+
+/-- C08 (presence): on a graph created with edge_removal=False, after any history, the pair is present at
+    `x` iff it was ever accepted and `first accepted t ≤ x ≤ largest accepted t of the graph`
+    (the largest accepted `t` is the largest snapshot id, see `C08_ids`). -/
+theorem C08_presence (d : Bool) (ops : List Op) (a b : Node) (x : Int) :
+    let g := ((Graph.empty d false).run ops).1
+    let log := (Graph.empty d false).runLog ops
+    g.hasInteraction a b (some x) = true ↔
+      ∃ t0 m, firstLogged d log a b = some t0 ∧ maxList (log.map (·.2.2.1)) = some m ∧ t0 ≤ x ∧ x ≤ m := by
+  intro g log
+  obtain ⟨r1, r2, r3, _⟩ := run_accInv (Graph.empty d false) rfl [] (AccInv.empty d) ops
+  have hd : g.directed = d := r2
+  have := AccInv.presence (by simpa using r3) r1 a b x
+  rw [hd] at this
+  exact this
+
+/-- C08 (stream): exactly one event per stored pair, a '+' at the time of its first accepted add, and no
+    '-' event at all; `stream_interactions()` is a chronological permutation of these. -/
+theorem C08_stream (d : Bool) (ops : List Op) :
+    let g := ((Graph.empty d false).run ops).1
+    let log := (Graph.empty d false).runLog ops
+    g.events = g.edges.map (fun e => ({ t := oldestStart e.tl, u := e.u, v := e.v, plus := true } : Ev)) ∧
+    (∀ e ∈ g.edges, firstLogged d log e.u e.v = some (oldestStart e.tl)) ∧
+    g.edges.Pairwise (fun e f => sameKey d e.u e.v f.u f.v = false) ∧
+    (∀ s ∈ log, ∃ e ∈ g.edges, sameKey d e.u e.v s.1 s.2.1 = true) ∧
+    g.stream.Perm g.events ∧ (g.stream.map (·.t)).Pairwise (· ≤ ·) := by
+  intro g log
+  obtain ⟨_, r2, r3, _⟩ := run_accInv (Graph.empty d false) rfl [] (AccInv.empty d) ops
+  have hd : g.directed = d := r2
+  have inv : AccInv g log := by simpa using r3
+  refine ⟨inv.events, fun e he => by rw [← hd]; exact (inv.first e he).2, by rw [← hd]; exact inv.keys,
+    fun s hs => by rw [← hd]; exact inv.logged s hs, List.mergeSort_perm _ _, ?_⟩
+  have hs := List.pairwise_mergeSort (le := fun (a b : Ev) => decide (a.t ≤ b.t))
+    (by intro a b c; simp; omega) (by intro a b; simp; omega) g.events
+  rw [List.pairwise_map]
+  exact hs.imp (by intro a b; simp)
+
+/-- C08 (ids): the snapshot ids are exactly the instants at which some add was accepted; calls raise
+    nothing but ValueError / NetworkXError. -/
+theorem C08_ids (d : Bool) (ops : List Op) :
+    let g := ((Graph.empty d false).run ops).1
+    let log := (Graph.empty d false).runLog ops
+    (∀ x, x ∈ g.ids ↔ ∃ s ∈ log, s.2.2.1 = x) ∧
+    (∀ o ∈ ((Graph.empty d false).run ops).2, o = none ∨ o = some .value ∨ o = some .networkx) := by
+  intro g log
+  obtain ⟨_, _, r3, r4⟩ := run_accInv (Graph.empty d false) rfl [] (AccInv.empty d) ops
+  have inv : AccInv g log := by simpa using r3
+  refine ⟨fun x => ?_, r4⟩
+  rw [ids_eq_sorted, (C18_sorted_perm _).mem_iff]
+  exact inv.snaps x
+
 /-! ### non-vacuity: concrete histories that meet the hypotheses -/
 
 example : ((Graph.empty false true).run [Op.add 1 2 (some 2) (some 6), Op.add 2 1 (some 4) (some 9), Op.add 1 2 (some 1) none]).2
@@ -211,5 +264,8 @@ example : ((Graph.empty false true).run [Op.add 1 2 (some 2) (some 6), Op.add 2 
 example : ((Graph.empty false true).run [Op.add 1 2 (some 2) (some 6), Op.add 2 1 (some 4) (some 9)]).1.timeline 2 1
     = some [(2, 8)] := by decide
 example : ((Graph.empty true true).run [Op.path [1, 2, 3] (some 0), Op.cycle [3, 1] (some 5)]).1.hasInteraction 3 1 (some 5) = true := by decide
+example : ((Graph.empty false false).run [Op.add 1 2 (some 3) (some 4), Op.add 3 4 (some 7) none]).1.hasInteraction 2 1 (some 6) = true := by decide
+example : ((Graph.empty false false).runLog [Op.add 1 2 (some 3) (some 4), Op.add 3 4 (some 7) none, Op.add 1 2 (some 1) none])
+    = [(1, 2, 3, 3), (3, 4, 7, 7)] := by decide
 
 end Dynetx
